@@ -2,8 +2,8 @@ SPEC = {
     "id": "C21",
     "coq_props": ["Properties/C21.v", "Corr/C21.v"],
     "module": "MS.Properties.C21",
-    "theorems": ["C21_run", "C21_partition", "C21_candle", "C21_order_independent", "C21_within_own_window",
-                 "C21_truncate_idem", "C21_refuted", "C21_order_refuted"],
+    "theorems": ["C21_run", "C21_partition", "C21_candle", "C21_order_independent", "C21_zone_idem", "C21_within_own_window",
+                 "C21_window_length", "C21_window_refuted", "C21_refuted", "C21_order_refuted"],
     "corr_require": "Require Import MS.Corr.C21.",
     "agrees": "C21.agrees",
     "in_domain": "C21.in_domain",
@@ -21,7 +21,7 @@ SPEC = {
         "that depend on the standard-library axioms ClassicalDedekindReals.sig_forall_dec, ClassicalDedekindReals.sig_not_dec, "
         "FunctionalExtensionality.functional_extensionality_dep, Classical_Prop.classic, which Print Assumptions therefore lists for "
         "the theorems mentioning float operations (C21_run, C21_partition, C21_candle, C21_order_independent, C21_refuted); "
-        "C21_within_own_window and C21_truncate_idem are closed under the global context",
+        "C21_zone_idem, C21_within_own_window, C21_window_length and C21_window_refuted are closed under the global context",
         "translator gen/: agg_Day and agg_suffixDefs (utils.Day, utils.suffixDefs) are regenerated from utils/timeframe.go on every run",
         "hand-written model coq/Model/Candle.v of contrib/candler (GetCandle, NewCandle, AddCandle, Output, SerializeToRowData, "
         "GetAverageColumnFloat32), TickCandler.Accum, CandleCandler.Accum, ColumnSeries.GetTime, CandleDuration.Truncate/IsWithin for "
@@ -31,11 +31,12 @@ SPEC = {
         "Go harness, Python driver lib/vk.py",
     ],
     "assumptions": [
-        "system timezone UTC (utils.InstanceConfig.Timezone default); suffixes Sec, Min, H, D; W/M/Y candles are C31's",
+        "system timezone: UTC or any zone at a fixed UTC offset (the harness configures utils.InstanceConfig.Timezone with time.FixedZone); "
+        "zones with transitions (DST) enter the theorems only through the hypothesis idem; suffixes Sec, Min, H, D; W/M/Y candles are C31's",
         "floats cross the harness boundary as IEEE bit patterns, NaNs identified",
         "order independence is stated for open/close exactly and for high/low up to Go's == (the sign of a zero can depend on order)",
-        "a '<n>D' timeframe with n > 1 still has one-day windows (Truncate ignores the multiplier): modelled as is, excluded from the "
-        "oracle's scope and reported in notes/C21.md",
+        "a '<n>D' timeframe with n > 1 still has one-day windows (Truncate ignores the multiplier): modelled as is; judged by the "
+        "oracle with an alignment-free bound (finding multiday-window, C21_window_refuted)",
     ],
     "level": "proof",
     "level_text": "Coq theorems over Model/Candle.v for EVERY row list, every timeframe and every split into Accum calls: the output has "
